@@ -268,6 +268,10 @@ func mcCatalog() *Catalog {
 	cat.addIndex("idy", [][2]string{{"img", "other"}}, "-", "-", "idy")
 	cat.addImage("sub", "b2", nil, "img", "image", "sub", "", 0)
 	cat.addOpaque("bad", `{"schemaVersion":2,"config":`, false)
+	// large opaque manifests: pushing them takes long enough for concurrent pushes to overlap
+	for _, id := range []string{"big1", "big2", "big3"} {
+		cat.addOpaque(id, `{"id":"`+id+`","pad":"`+strings.Repeat("x", 3<<20)+`"}`, true)
+	}
 	return cat
 }
 
